@@ -8,7 +8,7 @@ Import ListNotations.
 Require Import VParse VDec Tags TagsLit.
 Open Scope N_scope.
 
-Definition tag := (list N * list N * list N)%type.
+Notation tag := (list N * list N * list N)%type (only parsing).
 
 Fixpoint streq (a b : str) : bool :=
   match a, b with [], [] => true | x :: a', y :: b' => (x =? y) && streq a' b' | _, _ => false end.
